@@ -10,7 +10,8 @@ Side conditions (all decidable, evaluated by the driver on every generated case)
 * `wfSec cv s`    — the source has unique sibling names and every Property's values are of one
                     kind (true of every tree built through the API);
 * `typedSec d`    — a destination Property that holds values has a dtype (ditto);
-* `typeClash d s` — the defect region of known finding `C13/section-name-clash-other-type`.
+* `typeClash d s` — `Section._merge_name_check` raises (the region of the former finding
+                    `C13/section-name-clash-other-type`, now refused before anything changes).
 -/
 import OdmlModel.Model.Merge
 import OdmlModel.Proofs.Merge
@@ -24,7 +25,8 @@ variable {V : Type}
 
 /-! ## 1. All-or-nothing -/
 
-/-- `merge_check` predicts `merge`: if the check passes, the merge does not raise. -/
+/-- The two checks `merge` runs before it changes anything predict it: if `merge_check` passes
+    and `_merge_name_check` passes (`typeClash d s = false`), the merge does not raise. -/
 theorem merge_check_predicts (cv : Conv V) (k : Bool) (r : Ref) (d s : Sec V)
     (hwf : wfSec cv s = true) (hty : typedSec d = true) (hcl : typeClash d s = false)
     (hck : mergeCheck cv k d s = .ok) : (merge cv k r d s).2 = .ok :=
@@ -35,40 +37,59 @@ def AllOrNothing (cv : Conv V) : Prop :=
   ∀ (k : Bool) (r : Ref) (d s : Sec V) (e : Exc), wfSec cv s = true → typedSec d = true →
     (merge cv k r d s).2 = .raised e → (merge cv k r d s).1 = d
 
-/-- A merge that raises has changed nothing — outside the name-clash region. -/
-theorem merge_all_or_nothing_partial (cv : Conv V) (k : Bool) (r : Ref) (d s : Sec V) (e : Exc)
-    (hwf : wfSec cv s = true) (hty : typedSec d = true) (hcl : typeClash d s = false)
-    (hr : (merge cv k r d s).2 = .raised e) : (merge cv k r d s).1 = d := by
+/-- A merge that raises has changed nothing. (Full strength since the fix of finding
+    `C13/section-name-clash-other-type`; before it this needed `typeClash d s = false`.) -/
+theorem merge_all_or_nothing (cv : Conv V) : AllOrNothing cv := by
+  intro k r d s e hwf hty hr
   cases hck : mergeCheck cv k d s with
+  | raised e' => rw [merge_of_check_raised cv k r d s e' hck]
   | ok =>
-    rw [merge_check_predicts cv k r d s hwf hty hcl hck] at hr; cases hr
-  | raised e' =>
-    cases s with
-    | mk sa sp ss => unfold merge; rw [hck]
+    cases hcl : typeClash d s with
+    | true => rw [merge_of_clash cv k r d s hck hcl]
+    | false => rw [merge_check_predicts cv k r d s hwf hty hcl hck] at hr; cases hr
 
-/-- ... and what it raises is the `ValueError` of the check. -/
+/-- ... and what it raises is a `ValueError` (never the `KeyError` of `SmartList.append`). -/
 theorem merge_raise_is_value_error (cv : Conv V) (k : Bool) (r : Ref) (d s : Sec V) (e : Exc)
-    (hwf : wfSec cv s = true) (hty : typedSec d = true) (hcl : typeClash d s = false)
+    (hwf : wfSec cv s = true) (hty : typedSec d = true)
     (hr : (merge cv k r d s).2 = .raised e) : e = .valueError := by
   cases hck : mergeCheck cv k d s with
-  | ok =>
-    rw [merge_check_predicts cv k r d s hwf hty hcl hck] at hr; cases hr
   | raised e' =>
     have he' := mergeCheck_raised cv k s d e' hck
-    cases s with
-    | mk sa sp ss =>
-      unfold merge at hr; rw [hck] at hr
-      cases hr; exact he'
+    rw [merge_of_check_raised cv k r d s e' hck] at hr
+    cases hr; exact he'
+  | ok =>
+    cases hcl : typeClash d s with
+    | true => rw [merge_of_clash cv k r d s hck hcl] at hr; cases hr; rfl
+    | false => rw [merge_check_predicts cv k r d s hwf hty hcl hck] at hr; cases hr
 
-/-- The defect region exactly: when the check passes, `merge` raises iff the source has a
-    sub-Section whose name the destination uses for a Section of another type, and then it
-    raises `KeyError` (from `SmartList.append`), possibly after earlier children were merged. -/
-theorem clash_raises_key_error (cv : Conv V) (k : Bool) (r : Ref) (d s : Sec V)
-    (hwf : wfSec cv s = true) (hty : typedSec d = true) (hck : mergeCheck cv k d s = .ok)
-    (hcl : typeClash d s = true) : (merge cv k r d s).2 = .raised .keyError :=
-  merge_clash_keyError cv k s r d hwf hty hck hcl
+/-- The name clash is refused up front: when the source has, anywhere in the pairs of Sections
+    `merge` would visit, a sub-Section whose name the destination uses for a Section of another
+    type, `merge` raises `ValueError` and nothing is changed — strict or not, no side condition. -/
+theorem name_clash_raises (cv : Conv V) (k : Bool) (r : Ref) (d s : Sec V)
+    (hcl : typeClash d s = true) : merge cv k r d s = (d, .raised .valueError) := by
+  cases hck : mergeCheck cv k d s with
+  | raised e' =>
+    rw [merge_of_check_raised cv k r d s e' hck, mergeCheck_raised cv k s d e' hck]
+  | ok => exact merge_of_clash cv k r d s hck hcl
 
-/-! ### The witness of the known finding (values: the driver's instance `convC`) -/
+/-- Exactly when `merge` raises: one of the two up-front checks refuses. -/
+theorem merge_raises_iff (cv : Conv V) (k : Bool) (r : Ref) (d s : Sec V)
+    (hwf : wfSec cv s = true) (hty : typedSec d = true) :
+    (merge cv k r d s).2 = .raised .valueError ↔
+      (mergeCheck cv k d s = .raised .valueError ∨ typeClash d s = true) := by
+  constructor
+  · intro hr
+    cases hck : mergeCheck cv k d s with
+    | raised e' => rw [mergeCheck_raised cv k s d e' hck]; exact Or.inl rfl
+    | ok =>
+      cases hcl : typeClash d s with
+      | true => exact Or.inr rfl
+      | false => rw [merge_check_predicts cv k r d s hwf hty hcl hck] at hr; cases hr
+  · rintro (hck | hcl)
+    · rw [merge_of_check_raised cv k r d s _ hck]
+    · rw [name_clash_raises cv k r d s hcl]
+
+/-! ### The witness of the former finding (values: the driver's instance `convC`) -/
 
 def attrs0 (n t : Str) : SecAttrs :=
   { name := n, type := t, definition := none, reference := none, link := none, incl := none,
@@ -80,16 +101,15 @@ def wDest : Sec Val := .mk (attrs0 ['d'] ['t']) [] [.mk (attrs0 ['x'] ['t', '1']
 def wSrc : Sec Val :=
   .mk (attrs0 ['s'] ['t']) [] [.mk (attrs0 ['w'] ['t']) [] [], .mk (attrs0 ['x'] ['t', '2']) [] []]
 
-/-- The full statement is false of the code: `w` is already appended when `x` is refused. -/
-theorem merge_all_or_nothing_counterexample : ¬ AllOrNothing convC := by
-  intro h
-  have h1 := h false default wDest wSrc .keyError (by decide) (by decide) (by decide)
-  have h2 : (merge convC false default wDest wSrc).1.secs.length = wDest.secs.length := by rw [h1]
-  revert h2
-  decide
-
-example : typeClash wDest wSrc = true := by decide
-example : mergeCheck convC true wDest wSrc = .ok := by decide
+/-- On the witness of the former finding `merge_check` still passes (as `test_merge_check`
+    demands), the name check refuses, and `merge` leaves the destination alone: `w` is no longer
+    appended before `x` is refused. -/
+theorem name_clash_witness :
+    mergeCheck convC true wDest wSrc = .ok ∧ typeClash wDest wSrc = true ∧
+    merge convC true default wDest wSrc = (wDest, .raised .valueError) ∧
+    merge convC false default wDest wSrc = (wDest, .raised .valueError) :=
+  ⟨by decide, by decide, name_clash_raises convC true default wDest wSrc (by decide),
+   name_clash_raises convC false default wDest wSrc (by decide)⟩
 
 /-! ## 2. Strict conflicts -/
 
